@@ -36,6 +36,7 @@ func SplitBraces(word *Word) bool {
 	}
 	top := &Word{}
 	acc := top
+	found := false
 	var cur *BraceExp
 	var open []*BraceExp
 
@@ -129,6 +130,7 @@ func SplitBraces(word *Word) bool {
 					break
 				}
 				if !br.Sequence {
+					found = true
 					acc.Parts = append(acc.Parts, br)
 					break
 				}
@@ -161,6 +163,7 @@ func SplitBraces(word *Word) bool {
 					broken = true
 				}
 				if !broken {
+					found = true
 					acc.Parts = append(acc.Parts, br)
 					break
 				}
@@ -200,6 +203,10 @@ func SplitBraces(word *Word) bool {
 			}
 			acc.Parts = append(acc.Parts, elem.Parts...)
 		}
+	}
+	if !found {
+		// No valid brace expansion: leave the word untouched, as documented.
+		return false
 	}
 	*word = *top
 	return true
